@@ -1,9 +1,106 @@
-(* C01 — placeholder until the registry theorems land (replaced below). *)
+(* C01 — Singleton identity: one live object per name and per canonical form.
+   Only property theorems: each is closed by `exact` and followed by Print Assumptions.
+   RegOK/HeapOK are the invariants of Proofs/RegInv.v; Inv = RegOK /\ HeapOK. *)
 From Coq Require Import List NArith ZArith.
 From DSD Require Import Base.Str Base.Errors Model.ComplexUtils Model.RegStr Model.Heap Model.Registry
-  Proofs.RegistryBasic.
+  Proofs.RegHeap Proofs.RegInv Proofs.RegCalls Proofs.RegExt Proofs.RegC04 Proofs.RegStep Proofs.RegC01 Proofs.RegIds.
 Import ListNotations.
 
-Theorem C01_init_empty : forall ct n, heap (init ct n) = [] /\ length (classes (init ct n)) = length ct.
-Proof. exact init_shape. Qed.
-Print Assumptions C01_init_empty.
+Theorem C01_RegOK_init : forall ct n, Inv ct (init ct n).
+Proof. exact inv_init. Qed.
+Print Assumptions C01_RegOK_init.
+
+(* preserved by every step: all five classes, subclasses, failing constructors, every operation *)
+Theorem C01_RegOK_step : forall ct st o, Inv ct st -> Inv ct (fst (step ct st o)).
+Proof. exact inv_step. Qed.
+Print Assumptions C01_RegOK_step.
+
+Theorem C01_RegOK_reachable : forall ct n ops, Inv ct (run ct (init ct n) ops).
+Proof. exact inv_reachable. Qed.
+Print Assumptions C01_RegOK_reachable.
+
+(* (d) at most one live object per name and per canonical form in a class *)
+Theorem C01_one_live_object_per_name : forall ct st i j oi oj,
+  Inv ct st -> live_obj (heap st) i oi -> live_obj (heap st) j oj ->
+  o_cls oi = o_cls oj -> o_name oi = o_name oj -> i = j.
+Proof. exact one_per_name. Qed.
+Print Assumptions C01_one_live_object_per_name.
+
+Theorem C01_one_live_object_per_canonical_form : forall ct st i j oi oj,
+  Inv ct st -> live_obj (heap st) i oi -> live_obj (heap st) j oj ->
+  o_cls oi = o_cls oj -> o_key oi = o_key oj -> i = j.
+Proof. exact one_per_canon. Qed.
+Print Assumptions C01_one_live_object_per_canonical_form.
+
+(* (b),(c) both keys lead to the same object *)
+Theorem C01_both_keys_lead_to_the_object : forall ct st i o,
+  Inv ct st -> live_obj (heap st) i o ->
+  nlookup (o_name o) (cs_names (cget st (o_cls o))) = Some i /\
+  klookup (o_key o) (cs_canon (cget st (o_cls o))) = Some i.
+Proof. exact both_keys_lead_to_it. Qed.
+Print Assumptions C01_both_keys_lead_to_the_object.
+
+(* (a) registries hold live objects of exactly their class, under their own name / one of the keys
+   registered for them at creation (rotations of the input, for complexes); no key is bound twice *)
+Theorem C01_registry_entries : forall ct st c,
+  Inv ct st -> c < length ct ->
+  (forall n i, nlookup n (cs_names (cget st c)) = Some i ->
+      exists o, live_obj (heap st) i o /\ o_cls o = c /\ o_name o = n) /\
+  (forall k i, klookup k (cs_canon (cget st c)) = Some i ->
+      exists o, live_obj (heap st) i o /\ o_cls o = c /\ In k (o_keys o)) /\
+  NoDup (map fst (cs_names (cget st c))) /\ NoDup (map fst (cs_canon (cget st c))).
+Proof. exact registry_entries. Qed.
+Print Assumptions C01_registry_entries.
+
+(* construct_consistent: name and canonical form resolve to the same live object => that object *)
+Theorem C01_construct_consistent : forall cs name k o,
+  nonempty name = true -> nlookup name (cs_names cs) = Some o -> klookup k (cs_canon cs) = Some o ->
+  sing_lookup cs name (Some k) = LFound o.
+Proof. exact lookup_consistent. Qed.
+Print Assumptions C01_construct_consistent.
+
+(* construct_conflict, at the look-up: a refusal means exactly one key resolves or they resolve to
+   different objects; `existing`, when set, is the owner of the canonical form and the name is free *)
+Theorem C01_construct_conflict_lookup : forall cs name k e,
+  sing_lookup cs name (Some k) = LRaise e ->
+  (forall x, e = Some x -> klookup k (cs_canon cs) = Some x /\ nlookup name (cs_names cs) = None) /\
+  (nonempty name = true ->
+   match nlookup name (cs_names cs), klookup k (cs_canon cs) with
+   | Some a, Some b => a <> b
+   | None, None => False
+   | _, _ => True
+   end).
+Proof. exact lookup_conflict. Qed.
+Print Assumptions C01_construct_conflict_lookup.
+
+(* construct_conflict, for whole operations (all classes, any raised kind incl. ObjectInitError,
+   NotImplementedError, AssertionError, a failing user constructor): the state is the same up to dead
+   temporaries (same slots, same registries, same live objects) and `existing` is a live canon owner *)
+Theorem C01_construct_conflict : forall ct st o st' k e,
+  Inv ct st -> Collected st -> step ct st o = (st', Raised k e) ->
+  Junk st st' /\
+  (forall x, e = Some x -> is_live (heap st') x = true /\ exists c, Owner st c x).
+Proof. exact step_conflict. Qed.
+Print Assumptions C01_construct_conflict.
+
+Theorem C01_unchanged_means : forall st s,
+  Junk st s ->
+  roots s = roots st /\
+  (forall c, cs_names (cget s c) = cs_names (cget st c) /\ cs_canon (cget s c) = cs_canon (cget st c)) /\
+  (forall i o, live_obj (heap s) i o <-> live_obj (heap st) i o).
+Proof. exact junk_observables. Qed.
+Print Assumptions C01_unchanged_means.
+
+(* name_only: a name-only request is a pure look-up of the name registry *)
+Theorem C01_name_only : forall cs name,
+  nonempty name = true ->
+  sing_lookup cs name None = match nlookup name (cs_names cs) with Some o => LFound o | None => LRaise None end.
+Proof. exact lookup_name_only. Qed.
+Print Assumptions C01_name_only.
+
+(* (e) counters: unless the outcome is `Created` or a user constructor failed, no class counter moves *)
+Theorem C01_counters : forall ct st o st' out,
+  step ct st o = (st', out) -> (forall id, out <> Created id) -> (forall e, out <> Raised eUserFail e) ->
+  IdsSame st st'.
+Proof. exact counters_step. Qed.
+Print Assumptions C01_counters.
